@@ -135,4 +135,15 @@ structure Member (M0 M' : MG) : Prop where
   mag : IsMAG M'
   equiv : MarkovEquiv M0 M'
 
+/-- `P` is the PAG of the MAG `M0`, from the definition: same nodes and adjacencies, and an endpoint
+    mark is an arrowhead (tail) iff every member of the Markov equivalence class of `M0` has an
+    arrowhead (tail) there -/
+structure IsPagOf (M0 P : MG) : Prop where
+  nodes : P.nodes = M0.nodes
+  adj : ∀ a b, (markAt P a b).isSome ↔ (markAt M0 a b).isSome
+  head : ∀ a b, (markAt M0 a b).isSome →
+    (markAt P a b = some .head ↔ ∀ M', Member M0 M' → markAt M' a b = some .head)
+  tail : ∀ a b, (markAt M0 a b).isSome →
+    (markAt P a b = some .tail ↔ ∀ M', Member M0 M' → markAt M' a b = some .tail)
+
 end C09
